@@ -9,6 +9,7 @@ import (
 	"os"
 	"sort"
 	"strings"
+	"sync"
 	"time"
 
 	"github.com/rhysd/actionlint"
@@ -147,7 +148,19 @@ type RunOpts struct {
 	After func()
 }
 
-type syncWriter struct{ b *bytes.Buffer }
+// lockedWriter is the log writer handed to actionlint: like os.Stderr (what the CLI passes) it is
+// safe for concurrent use. Whether a caller's LogWriter must be goroutine-safe is not stated by
+// any property, so the harness does not decide it.
+type lockedWriter struct {
+	mu sync.Mutex
+	b  *bytes.Buffer
+}
+
+func (w *lockedWriter) Write(p []byte) (int, error) {
+	w.mu.Lock()
+	defer w.mu.Unlock()
+	return w.b.Write(p)
+}
 
 // RunLint executes actionlint on the world under the simulator.
 func RunLint(w *World, c *Chooser, o RunOpts) *LintResult {
@@ -214,7 +227,7 @@ func lintOnce(w *World, res *LintResult, shared *sharedLinter) {
 		if w.StdinR != nil {
 			in = w.StdinR
 		}
-		cmd := actionlint.Command{Stdin: in, Stdout: &out, Stderr: &errb}
+		cmd := actionlint.Command{Stdin: in, Stdout: &out, Stderr: &lockedWriter{b: &errb}}
 		res.Exit = cmd.Main(append([]string{"actionlint"}, w.Args...))
 	default:
 		opts := &actionlint.LinterOptions{
@@ -227,13 +240,13 @@ func lintOnce(w *World, res *LintResult, shared *sharedLinter) {
 			ConfigFile:     w.Opts.ConfigFile,
 			Verbose:        w.Opts.Verbose,
 			WorkingDir:     w.Opts.WorkingDir,
-			LogWriter:      &errb,
+			LogWriter:      &lockedWriter{b: &errb},
 		}
 		var l *actionlint.Linter
 		var err error
 		if shared != nil {
 			if shared.l == nil && shared.err == nil {
-				opts.LogWriter = &shared.errb
+				opts.LogWriter = &lockedWriter{b: &shared.errb}
 				shared.l, shared.err = actionlint.NewLinter(&shared.out, opts)
 			}
 			l, err = shared.l, shared.err
